@@ -151,7 +151,10 @@ public:
         niter_ = 0;
         for (niter_ = 0; niter_ < maxit; niter_++)
         {
-            bool do_restart = (m_search_space.size() > m_max_search_space_size);
+            // Restart when the space is too large, and also before it would outgrow the dimension
+            // of the problem: more than n vectors cannot be orthonormal
+            bool do_restart = (m_search_space.size() > m_max_search_space_size) ||
+                (m_search_space.size() + m_correction_size > m_matrix_operator.rows());
 
             if (do_restart)
             {
